@@ -1409,6 +1409,15 @@ func (e *Exec) recordRet(st *State, name string, dst ssa.Value) {
 				g := fmt.Sprintf("%s_ret%d", strings.ReplaceAll(name, ".", "_"), i)
 				e.ghostGet(st, g, r.T, e.sc.zero(r.T))
 				e.ghostSet(st, g, r.T, r.S)
+				if i == 0 {
+					// every first result, by call ordinal (nth(callee, k) in contracts)
+					ga := strings.ReplaceAll(name, ".", "_") + "_rets"
+					at := types.NewArray(r.T, 1)
+					arr := e.ghostGet(st, ga, at, e.sc.zero(at))
+					cnt := e.ghostGet(st, strings.ReplaceAll(name, ".", "_")+"_calls", tInt, e.sc.idxLit(0))
+					e.ghostSet(st, ga, at, fmt.Sprintf("(store %s %s %s)", arr.S, cnt.S, r.S))
+					e.rawGhost[ga] = true
+				}
 			}
 		}
 	}
